@@ -175,6 +175,19 @@ def run_index_case(case, rec):
                 compare_selection(rec, fp + '-single', result, truth, kind, cells, None, shift, nan_cell, label, geometry_names)
             except LibraryRaised as err:
                 rec.check(False, f"{fp}-single/raised", label, 'dataset', str(err))
+    # variables of the other grids held as xarray coordinates (as a `coordinates` attribute in a file makes them): they are
+    # no more part of a selection on this grid than when they are data variables
+    if case['length'] == 1 and not case['names_taken'] and not case['spec'].get('history') and len(truth.kinds) > 1:
+        others = [name for name, vt in truth.vars.items() if vt['kind'] not in (None, kind) and name in ds.variables]
+        if others:
+            rec.nontrivial('other-grid-coordinates')
+            promoted = ds.set_coords(others)
+            try:
+                result = lib(promoted.ems.select_indexes, [natives[alphabet[0]]])
+                left = [name for name in others if name in result.variables]
+                rec.check(not left, f"{fp}/other-grid-variable-kept", "select_indexes: variables of other grids held as coordinates", [], left)
+            except LibraryRaised as err:
+                rec.check(False, f"{fp}/raised", "select_indexes with other-grid variables held as coordinates", 'dataset', str(err))
     # one long request (5000 entries, every cell many times, in an order that is neither sorted nor periodic in the grid)
     if case['length'] == 1 and not case['names_taken'] and not case['spec'].get('history'):
         rec.nontrivial('long-request')
